@@ -126,6 +126,7 @@ IMPLICIT_PARENT = {
 
 
 def implicit_name(parent_name, inline_elements):
+    parent_name = parent_name.lower()          # HTML element names are case-insensitive
     if parent_name in IMPLICIT_PARENT:
         return IMPLICIT_PARENT[parent_name]
     if parent_name in inline_elements:
